@@ -3376,3 +3376,41 @@ pub(crate) fn verif_intra_predict(
     d.intra_predict_chroma(mbx, mby, &mb, resdata);
     Some((d.frame.ybuf, d.frame.ubuf, d.frame.vbuf, d.top_border, d.left_border))
 }
+
+/// `read_frame_header` on a complete key frame: the parsed header state as a flat list (pixel type,
+/// segments enabled, update map, delta values, 4 quantiser levels, 4 filter levels, 3 tree
+/// probabilities, filter type, level, sharpness, 4 + 4 deltas, partition count, 4 x 6 factors, skip
+/// probability or -1) and the token probabilities (4 x 8 x 3 x 11).
+#[cfg(image_webp_verif)]
+pub(crate) fn verif_frame_header(frame: &[u8]) -> Result<(Vec<i64>, Vec<u8>), DecodingError> {
+    let mut d = Vp8Decoder::new(std::io::Cursor::new(frame.to_vec()));
+    d.read_frame_header()?;
+    let mut v: Vec<i64> = vec![
+        i64::from(d.frame.pixel_type),
+        i64::from(d.segments_enabled),
+        i64::from(d.segments_update_map),
+        i64::from(d.segment[0].delta_values),
+    ];
+    v.extend(d.segment.iter().map(|s| i64::from(s.quantizer_level)));
+    v.extend(d.segment.iter().map(|s| i64::from(s.loopfilter_level)));
+    v.extend(d.segment_tree_nodes.iter().map(|n| i64::from(n.prob)));
+    v.push(i64::from(d.frame.filter_type));
+    v.push(i64::from(d.frame.filter_level));
+    v.push(i64::from(d.frame.sharpness_level));
+    v.extend(d.ref_delta.iter().map(|&x| i64::from(x)));
+    v.extend(d.mode_delta.iter().map(|&x| i64::from(x)));
+    v.push(i64::from(d.num_partitions));
+    for s in d.segment.iter() {
+        v.extend([s.ydc, s.yac, s.y2dc, s.y2ac, s.uvdc, s.uvac].iter().map(|&x| i64::from(x)));
+    }
+    v.push(d.prob_skip_false.map_or(-1, i64::from));
+    let probs = d
+        .token_probs
+        .iter()
+        .flatten()
+        .flatten()
+        .flatten()
+        .map(|n| n.prob)
+        .collect();
+    Ok((v, probs))
+}
